@@ -18,6 +18,7 @@ import (
 	"bytes"
 	"encoding/json"
 	"errors"
+	"math"
 	"strconv"
 	"strings"
 
@@ -219,6 +220,31 @@ func ToGNMITypedValue(v *sdcpb.TypedValue) *gnmi.TypedValue {
 	return nil
 }
 
+// equalDecimal64 reports whether two decimal64 values are the same number: 1.5 and 1.50 are.
+// The value with fewer fraction digits is brought to the precision of the other one.
+func equalDecimal64(a, b *sdcpb.Decimal64) bool {
+	ad, ok := scaleDecimal64(a.GetDigits(), a.GetPrecision(), b.GetPrecision())
+	if !ok {
+		return false
+	}
+	bd, ok := scaleDecimal64(b.GetDigits(), b.GetPrecision(), a.GetPrecision())
+	return ok && ad == bd
+}
+
+// scaleDecimal64 returns the digits of the number digits / 10^precision at the precision to (unchanged if that is
+// not a higher one). A number that leaves the 64 bit range on the way is reported as not representable: it is larger
+// in magnitude than any decimal64 of the precision to.
+func scaleDecimal64(digits int64, precision uint32, to uint32) (int64, bool) {
+	for precision < to {
+		if digits > math.MaxInt64/10 || digits < math.MinInt64/10 {
+			return 0, false
+		}
+		digits *= 10
+		precision++
+	}
+	return digits, true
+}
+
 func EqualTypedValues(v1, v2 *sdcpb.TypedValue) bool {
 	if v1 == nil {
 		return v2 == nil
@@ -313,10 +339,7 @@ func EqualTypedValues(v1, v2 *sdcpb.TypedValue) bool {
 			if v1 == nil || v2 == nil {
 				return false
 			}
-			if v1.DecimalVal.GetDigits() != v2.DecimalVal.GetDigits() {
-				return false
-			}
-			return v1.DecimalVal.GetPrecision() == v2.DecimalVal.GetPrecision()
+			return equalDecimal64(v1.DecimalVal, v2.DecimalVal)
 		default:
 			return false
 		}
